@@ -112,6 +112,40 @@ def errmsg_programs(rnd, registry, per_callable):
     return out
 
 
+KEYNAMES = ["string-numbers", "exact-integers", "name", "max", "limit", "default", "host"]
+
+
+def keyword_programs(rnd, n):
+    """calls of functions with keyword parameters (user-defined, anonymous, and the builtins that declare &key) that OMIT
+    some keywords, and failing twins that pass those same keywords next to something the binder refuses.  Whatever a
+    refused call leaves behind must not reach a later call - in this runtime or in any other of the process"""
+    goods, bads = [], []
+    for i in range(n):
+        ks = rnd.sample(KEYNAMES, rnd.randrange(2, 6))
+        given = rnd.sample(ks, rnd.randrange(0, len(ks)))
+        defn = "(defun kf (a &key %s) (list a %s))" % (" ".join(ks), " ".join(ks))
+        calls = ["(debug-print (kf 1 %s))" % " ".join(":%s %d" % (k, 10 + j) for j, k in enumerate(given)),
+                 "(debug-print ((lambda (&key %s) (list %s))))" % (" ".join(ks[:2]), " ".join(ks[:2])),
+                 "(debug-print (json:dump-string (vector 7 2.5 \"s\")))", "(debug-print (json:dump-bytes 7))",
+                 "(debug-print (json:load-message (json:dump-message (vector 9007199254740993 1.5))))",
+                 "(debug-print (load-string \"(+ 1 2)\"))", "(debug-print (load-bytes (to-bytes \"(debug-stack)\")))",
+                 "(debug-print (handler-bind ((condition (lambda (c &rest r) c))) (time:sleep (time:parse-duration \"1ns\"))))"]
+        rnd.shuffle(calls)
+        goods.append(defn + "\n" + "\n".join(calls[:rnd.randrange(2, 6)]))
+        allk = " ".join(":%s %s" % (k, rnd.choice(["true", "1", '\"x\"', "2.5"])) for k in rnd.sample(KEYNAMES, rnd.randrange(1, len(KEYNAMES))))
+        H = "(handler-bind ((condition (lambda (c &rest r) (debug-print c) c))) %s)"
+        wrong = rnd.choice([":zz-bogus 1", "5 6", ":zz-bogus", "'sym 1", "\"str\" 2"])
+        bad = [H % ("(kf 1 %s %s)" % (allk, wrong)), H % ("((lambda (&key host) host) %s %s)" % (allk, wrong)),
+               H % ("(json:dump-string 7 :string-numbers true %s)" % wrong), H % ("(json:dump-bytes 7 :string-numbers true %s)" % wrong),
+               H % ("(json:load-message (json:dump-message 1) :string-numbers true :exact-integers true %s)" % wrong),
+               H % ("(load-string \"1\" :name \"n\" %s)" % wrong), H % ("(load-bytes (to-bytes \"1\") :name \"n\" %s)" % wrong),
+               H % ("(time:sleep (time:parse-duration \"1ns\") :max (time:parse-duration \"1ns\") %s)" % wrong),
+               H % ("((lambda (a &key max &rest more) a) 1 :max 2)"), H % ("((lambda (&key name &optional x) name) :name 2)")]
+        rnd.shuffle(bad)
+        bads.append("(defun kf (a &key %s) a)\n" % " ".join(KEYNAMES[:rnd.randrange(1, 4)]) + "\n".join(bad[:rnd.randrange(2, 7)]))
+    return goods, bads
+
+
 def wide_program(rnd):
     return "\n".join(frag(rnd) for _ in range(rnd.randrange(2, 7)))
 
@@ -176,7 +210,12 @@ def _run(V, work, tier):
     for i, f in enumerate(["(make-sequence 0 10)", "(list (make-sequence 0 9) (make-sequence 0 7))", "(concat 'list (list 1 2 3) (list 4 5 6))", "(zip 'list (list 1 2 3 4 5) (list 1 2 3 4 5 6))",
                            "(map 'list identity (list 1 2 3 4 5 6))", "(string:repeat \"ab\" 9)", "(sorted-map \"a\" (vector 1 2 3 4 5) \"b\" (vector 1 2 3 4 5 6))"]):
         allocp.append({"id": "al%d" % i, "seq": [H % f], "cfg": {"maxalloc": 4}})
-    allp = mdrv + wide + listing + errp + allocp
+    goods, bads = keyword_programs(rnd, 120 if thorough else 40)
+    kwp = [{"id": "kg%d" % i, "seq": [p], "cfg": {}} for i, p in enumerate(goods)] + [{"id": "kb%d" % i, "seq": [p], "cfg": {}} for i, p in enumerate(bads)]
+    # anonymous validators shown by name (error text, stack, printed function)
+    vnp = [{"id": "vn%d" % i, "seq": [H % f], "cfg": {}} for i, f in enumerate(["(funcall (s:gt 3) 1 2)", "(funcall (s:make-validator \"t\" s:int (s:gt 3)))", "(s:validate (s:make-validator \"t\" s:int (s:gt 3)) 1 2 3)"])]
+    vnp += [{"id": "vm%d" % i, "seq": [f], "cfg": {}} for i, f in enumerate(["(funcall (s:gt 3) 1 2)", "(funcall (s:make-validator \"t\" s:int (s:gt 3)))", "(funcall (s:of s:int) 1 2)"])]
+    allp = mdrv + wide + listing + errp + allocp + kwp + vnp
     reps = 8 if thorough else 4
     # one process: every program `reps` times at shuffled positions (other runtimes ran other things in between)
     stream = []
@@ -184,7 +223,19 @@ def _run(V, work, tier):
         order = list(allp)
         rnd.shuffle(order)
         stream += [dict(p, id="%s#%d" % (p["id"], r)) for p in order]
+    # ... and every keyword program right after each of several refused twins (what a refused call leaves behind in
+    # the process must not reach the next runtime)
+    npair = 0
+    for i in range(len(goods)):
+        for j in rnd.sample(range(len(bads)), 6 if thorough else 3):
+            stream.append(dict(kwp[len(goods) + j], id="kb%d#p%d" % (j, npair)))
+            stream.append(dict(kwp[i], id="kg%d#p%d" % (i, npair)))
+            npair += 1
     out1 = {r["id"]: r["runs"][0]["evals"] for r in driver_json(binary, ["run"], stream, timeout=3300)}
+    after_bad = {}
+    for k, v in out1.items():
+        if "#p" in k and k.startswith("kg"):
+            after_bad.setdefault(k.split("#")[0], []).append((k, v))
     # separate processes
     procs = []
     for k in range(3 if not thorough else 5):
@@ -196,10 +247,17 @@ def _run(V, work, tier):
             variants.setdefault(scrub(out1["%s#%d" % (pid, r)][0]), []).append("in-process run %d" % r)
         for k, po in enumerate(procs):
             variants.setdefault(scrub(po[pid][0]), []).append("process %d" % k)
+        for k, v in after_bad.get(pid, []):
+            variants.setdefault(scrub(v[0]), []).append("in-process run right after a refused keyword call in another runtime (%s)" % k)
         if len(variants) > 1:
             vs = list(variants.items())
             a, b = json.loads(vs[0][0]), json.loads(vs[1][0])
             diff = [k for k in a if a[k] != b[k]]
+            # the names libschema gives anonymous validators come from ONE counter per process (known finding): a difference
+            # that disappears once those numbers are blanked is that finding and nothing else
+            if len({re.sub(r"_validation_fun_\d+", "_validation_fun_N", x) for x in variants}) == 1:
+                V.add("validator-name-counter", "an anonymous validator's name differs between runs", {"src": p["seq"][0]})
+                continue
             V.add(None, "two runs of the same program differ in %s (%s vs %s)" % (diff, vs[0][1][0], vs[1][1][0]),
                   {"src": p["seq"][0], "cfg": p.get("cfg") or {}, "differs_in": diff, "a": {k: a[k] for k in diff}, "b": {k: b[k] for k in diff}})
         if pid.startswith("m"):
